@@ -276,23 +276,23 @@ def finish : Nat → St → List Node
     | _ :: _ => finish fuel (closeTop s)
 
 /-- one line parsed as a top-level segment (`find_groups=False`) -/
-def parseLine (T : Tables) (dflt : Defaults) (ec : EC) (strict : Bool) (l : Str) : R Node :=
-  match Pe.segment T dflt (strip l) ec strict with
+def parseLine (T : Tables) (ec : EC) (strict : Bool) (l : Str) : R Node :=
+  match Pe.segment T (strip l) ec strict with
   | .ok sg => .ok (Node.seg sg)
   | .error e => .error e
 
 /-- `parse_segments(text, version, ec, level, references, find_groups)` -/
-def parseSegments (T : Tables) (dflt : Defaults) (text : Str) (ec : EC) (strict : Bool)
+def parseSegments (T : Tables) (text : Str) (ec : EC) (strict : Bool)
     (refs : Option (List SRow)) (findGroups : Bool) : R (List Node) := do
   let lines := (splitOn '\r' text).filter (fun l => !l.isEmpty)
   match refs, findGroups with
   | some rows, true =>
     let st ← lines.foldlM (fun (s : St) l =>
-      place T strict (String.ofList (l.take 3)) (fun _ => Pe.segment T dflt (strip l) ec strict) (s.frames.length + 1) s)
+      place T strict (String.ofList (l.take 3)) (fun _ => Pe.segment T (strip l) ec strict) (s.frames.length + 1) s)
       (⟨[], rows, []⟩ : St)
     pure (finish (st.frames.length + 1) st)
   | _, _ =>
-    lines.mapM (parseLine T dflt ec strict)
+    lines.mapM (parseLine T ec strict)
 
 /-- delimiters for which the `Message(...)` constructor's own MSH assignments can fail (digits, letters,
     white space as delimiters): outside the model's domain -/
@@ -322,14 +322,14 @@ def parseMessage (tables : List Tables) (dflt : Defaults) (text : Str) (strict :
   | some (n, rows) =>
     structCheck rows
     -- a Z message has no structure: its segments are parsed flat (fix of finding D4z)
-    let kids ← parseSegments T dflt text ec strict (some rows) (findGroups && !isZMsg n.toList)
+    let kids ← parseSegments T text ec strict (some rows) (findGroups && !isZMsg n.toList)
     let kids ← kids.foldlM (fun (acc : List Node) k => do
       admit T strict true (some n) (some rows) acc k
       pure (acc ++ [k])) []
     pure ⟨version, strict, ec, some n, some rows, kids⟩
   | none =>
     if strict then throw .OperationNotAllowed
-    let kids ← parseSegments T dflt text ec strict none false
+    let kids ← parseSegments T text ec strict none false
     let kids ← kids.foldlM (fun (acc : List Node) k => do
       admit T strict true none none acc k
       pure (acc ++ [k])) []
